@@ -10,6 +10,7 @@ package main
 //        wk N DLEN START                     N inserts with distinct 4-byte counter keys (START+i, little endian)
 //        stalehdr                            (writer closed) zero the header's EntryCount/BlockCount in place: the crash
 //                                            window between the block append and the header rewrite of flushLocked
+//        ztail N                             (writer closed) append N zero bytes: the zero-filled tail of a power loss
 //        compact                             (writer closed) v2.NewCompactor(path, bs, 0).ForceCompact()
 //        flush | sync | close | reopen
 //        load                                NewFileReader(path).LoadIndex()
@@ -398,6 +399,29 @@ func (s *c01Sess) apply(f []string) string {
 			return "rej header"
 		}
 		return "ok"
+	case len(f) == 2 && f[0] == "ztail":
+		// (writer closed) N zero bytes behind the last block: what a power loss leaves when the file
+		// size of an append reached the disk and its data did not
+		n, err := strconv.Atoi(f[1])
+		if err != nil || n < 0 || n > 1<<20 {
+			return "bad-op"
+		}
+		if s.fw != nil {
+			return "rej open"
+		}
+		if !s.exists {
+			return "rej header"
+		}
+		fh, err := os.OpenFile(s.path, os.O_WRONLY|os.O_APPEND, 0o644)
+		if err != nil {
+			return "rej header"
+		}
+		_, err = fh.Write(make([]byte, n))
+		_ = fh.Close()
+		if err != nil {
+			return "rej header"
+		}
+		return "ok"
 	case len(f) == 1 && f[0] == "compact":
 		if s.fw != nil {
 			return "rej open"
@@ -727,6 +751,13 @@ func c01Gen(rng *rand.Rand, tier string, w *bufio.Writer) {
 		g.emit(l)
 	}
 	g.raw()
+	newCase() // zero-filled tail: the reader stops there, the next open cuts it, later appends are seen
+	g.emit("cfg 64 x:" + c01Hex([]byte("a/b/c")))
+	for _, l := range []string{"w 1 x:6b31 x:7631", "close", "ztail 100", "load", "reopen", "w 1 x:6b32 x:7632", "close", "load",
+		"ztail 7", "load", "reopen", "w 1 x:6b33 x:7633", "close", "load", "ztail 16", "reopen", "wn 20 3 10 5", "sync", "w 3 x:6b31 x:-", "close", "load"} {
+		g.emit(l)
+	}
+	g.raw()
 	newCase() // WriteEntries batches and compaction
 	g.emit("cfg 128 x:" + c01Hex([]byte("a/b/c")))
 	for _, l := range []string{"wb 40 3 20 7", "w 3 g:3:9 x:-", "wb 5 2 300 1", "close", "load"} {
@@ -879,6 +910,12 @@ func c01Gen(rng *rand.Rand, tier string, w *bufio.Writer) {
 					}
 					if rng.Intn(8) == 0 {
 						g.emit("stalehdr")
+					}
+					if rng.Intn(8) == 0 {
+						g.emit(fmt.Sprintf("ztail %d", []int{1, 15, 16, 17, 1 + rng.Intn(300), 4096}[rng.Intn(6)]))
+						if rng.Intn(2) == 0 {
+							g.emit("load")
+						}
 					}
 					if rng.Intn(8) == 0 && !compacted {
 						g.emit("compact")
